@@ -645,11 +645,11 @@ func (u *U) deepRoute(doc *J, k int) *J {
 
 // ------------------------------------------------------------------------------------------------ route
 
-func hx(s string) string { return hex.EncodeToString([]byte(s)) }
+func utHx(s string) string { return hex.EncodeToString([]byte(s)) }
 
 // route tokens for the model: R d<hex> d<hex> then strategy: U | P<id> | Pn | S<k> ... | Sn | L<k> ... W<m> w<hex>... | Ln
 func routeTokens(r *swaptypes.Route, sb *strings.Builder) {
-	fmt.Fprintf(sb, " R d%s d%s", hx(r.DenomIn), hx(r.DenomOut))
+	fmt.Fprintf(sb, " R d%s d%s", utHx(r.DenomIn), utHx(r.DenomOut))
 	switch s := r.Strategy.(type) {
 	case nil:
 		sb.WriteString(" U")
@@ -678,7 +678,7 @@ func routeTokens(r *swaptypes.Route, sb *strings.Builder) {
 			}
 			fmt.Fprintf(sb, " W%d", len(s.Parallel.Weights))
 			for _, w := range s.Parallel.Weights {
-				sb.WriteString(" w" + hx(w))
+				sb.WriteString(" w" + utHx(w))
 			}
 		}
 	}
